@@ -8,8 +8,10 @@ Open Scope Z_scope.
 (* frames used below *)
 Lemma send_pending : forall s a b c d e s' evs, do_send s a b c d e = ROk (s', evs) -> pending s' = pending s.
 Proof. unfold do_send; intros. des H. des H. mon. reflexivity. Qed.
-Lemma cancel_pending : forall s a b s' evs, do_cancel s a b = ROk (s', evs) -> pending s' = pending s.
-Proof. unfold do_cancel; intros. des H. des H. des H. mon. des H. des H. mon. reflexivity. Qed.
+Lemma send_p_pending : forall s a b c d e s' evs, do_send_p s a b c d e = ROk (s', evs) -> pending s' = pending s.
+Proof. intros. destruct (send_p_spec _ _ _ _ _ _ _ _ H) as (_ & _ & _ & _ & _ & _ & _ & _ & _ & _ & E & _); auto. Qed.
+Lemma cancel_pending : forall s a b s' evs, NoDup (ids (pool s)) -> do_cancel s a b = ROk (s', evs) -> pending s' = pending s.
+Proof. intros s a b s' evs ND H. destruct (cancel_spec _ _ _ _ _ ND H) as (x & _ & _ & _ & _ & _ & _ & _ & _ & _ & _ & _ & E & _); auto. Qed.
 Lemma increase_pending : forall s a b c d e s' evs, do_increase s a b c d e = ROk (s', evs) -> pending s' = pending s.
 Proof. unfold do_increase; intros. des H. des H. des H. des H. des H. mon. reflexivity. Qed.
 Lemma request_pending : forall s a b c d e f s' evs, do_request_batch s a b c d e f = ROk (s', evs) -> pending s' = pending s.
@@ -90,13 +92,16 @@ Proof.
   pose proof (step_unfold s o) as SU. rewrite R in SU. apply step_ok_exec in SU.
   set (s' := step_state s o) in *. set (evs := snd (fst (step s o))) in *. clearbody s' evs.
   pose proof (inv_pool_nodup _ I) as NDp.
-  destruct o as [sender dest amount fee token|id who|id who add token which|token which feercv basefee minfee auth
+  destruct o as [sender dest amount fee token|sender dest amount fee token|id who|id who add token which|token which feercv basefee minfee auth
                 |token nonce h|h|sender refund coins to data memo|sender refund value tokens to data memo|nonce ok h|e| |p]; simpl in SU, A.
   - (* Send *)
     pose proof (send_pending _ _ _ _ _ _ _ _ SU) as Ep.
     destruct (send_spec _ _ _ _ _ _ _ _ SU) as (_ & _ & _ & Eb & Ec & _ & _ & _ & Eo & -> & _).
     constructor; simpl; rewrite ?Eb, ?Ec, ?Eo, ?Ep; auto.
-  - pose proof (cancel_pending _ _ _ _ _ SU) as Ep.
+  - pose proof (send_p_pending _ _ _ _ _ _ _ _ SU) as Ep.
+    destruct (send_p_spec _ _ _ _ _ _ _ _ SU) as (_ & _ & _ & Eb & Ec & _ & _ & _ & Eo & -> & _).
+    constructor; simpl; rewrite ?Eb, ?Ec, ?Eo, ?Ep; auto.
+  - pose proof (cancel_pending _ _ _ _ _ NDp SU) as Ep.
     destruct (cancel_spec _ _ _ _ _ NDp SU) as (x & _ & _ & _ & _ & Eb & Ec & _ & _ & _ & Eo & -> & _).
     constructor; simpl; rewrite ?Eb, ?Ec, ?Eo, ?Ep; auto.
   - pose proof (increase_pending _ _ _ _ _ _ _ _ SU) as Ep.
@@ -105,7 +110,7 @@ Proof.
   - (* RequestBatch *)
     pose proof (request_pending _ _ _ _ _ _ _ _ _ SU) as Ep.
     destruct (request_batch_spec _ _ _ _ _ _ _ _ _ NDp (inv_bnlt _ I) SU)
-      as (b & _ & Pb & Hn & Ht & _ & _ & _ & _ & _ & _ & Ec & _ & _ & _ & Eo & _ & ->).
+      as (b & _ & Pb & Hn & Ht & _ & _ & _ & _ & _ & _ & Ec & _ & _ & _ & Eo & _ & -> & _).
     constructor; simpl; rewrite ?Ec, ?Eo, ?Ep; auto.
     intros t n T [E|Hin] Hx Ho.
     + inv E. exists b. repeat split; auto. eapply perm_in; [apply Permutation_sym; eauto|simpl; auto].
@@ -291,12 +296,15 @@ Proof.
   intros g s o I [JB JC JP] [GC GN] A G.
   destruct (step_state_cases s o) as [(evs & SU)|E]; [|rewrite E; constructor; auto].
   set (s' := step_state s o) in *. clearbody s'. pose proof (inv_pool_nodup _ I) as NDp.
-  destruct o as [sender dest amount fee token|id who|id who add token which|token which feercv basefee minfee auth
+  destruct o as [sender dest amount fee token|sender dest amount fee token|id who|id who add token which|token which feercv basefee minfee auth
                 |token nonce h|h|sender refund coins to data memo|sender refund value tokens to data memo|nonce ok h|e| |p]; simpl in SU, A, G.
   - pose proof (send_pending _ _ _ _ _ _ _ _ SU) as Ep.
     destruct (send_spec _ _ _ _ _ _ _ _ SU) as (_ & _ & _ & _ & Ec & _).
     constructor; rewrite ?Ep, ?Ec; auto.
-  - pose proof (cancel_pending _ _ _ _ _ SU) as Ep.
+  - pose proof (send_p_pending _ _ _ _ _ _ _ _ SU) as Ep.
+    destruct (send_p_spec _ _ _ _ _ _ _ _ SU) as (_ & _ & _ & _ & Ec & _).
+    constructor; rewrite ?Ep, ?Ec; auto.
+  - pose proof (cancel_pending _ _ _ _ _ NDp SU) as Ep.
     destruct (cancel_spec _ _ _ _ _ NDp SU) as (x & _ & _ & _ & _ & _ & Ec & _).
     constructor; rewrite ?Ep, ?Ec; auto.
   - pose proof (increase_pending _ _ _ _ _ _ _ _ SU) as Ep.
